@@ -156,6 +156,14 @@ func classifyValue(info *types.Info, e ast.Expr, calleeBody *ast.BlockStmt, ret 
 		if obj == nil || obj.IsField() {
 			return vkUnknown
 		}
+		// assigned by the statement immediately before the return, in the same statement list
+		if rhs := precedingAssign(info, calleeBody, ret, obj); rhs != nil {
+			if _, isID := ast.Unparen(rhs).(*ast.Ident); !isID {
+				if k := classifyValue(info, rhs, calleeBody, ret); k != vkUnknown {
+					return k
+				}
+			}
+		}
 		// innermost enclosing `if obj != nil { … ret … }` without a write to obj inside
 		var encl *ast.IfStmt
 		ast.Inspect(calleeBody, func(n ast.Node) bool {
@@ -578,4 +586,38 @@ func (g *guardInfo) evalAt(info *types.Info, e ast.Expr, calleeBody *ast.BlockSt
 		}
 	}
 	return false, false
+}
+
+// precedingAssign: the right-hand side assigned to obj by the statement that immediately precedes ret
+// in the statement list that contains ret (nil when there is none).
+func precedingAssign(info *types.Info, body *ast.BlockStmt, ret *ast.ReturnStmt, obj types.Object) ast.Expr {
+	var out ast.Expr
+	check := func(list []ast.Stmt) {
+		for i, st := range list {
+			if st != ast.Stmt(ret) || i == 0 {
+				continue
+			}
+			as, ok := list[i-1].(*ast.AssignStmt)
+			if !ok || len(as.Lhs) != len(as.Rhs) {
+				return
+			}
+			for j, l := range as.Lhs {
+				if id, ok := ast.Unparen(l).(*ast.Ident); ok && (info.Uses[id] == obj || info.Defs[id] == obj) {
+					out = as.Rhs[j]
+				}
+			}
+		}
+	}
+	ast.Inspect(body, func(n ast.Node) bool {
+		switch x := n.(type) {
+		case *ast.BlockStmt:
+			check(x.List)
+		case *ast.CaseClause:
+			check(x.Body)
+		case *ast.CommClause:
+			check(x.Body)
+		}
+		return out == nil
+	})
+	return out
 }
